@@ -107,7 +107,16 @@ func c14Case(env *Env, tape *sim.Tape) *CaseOut {
 	useBytes := tape.Draw(2) == 1
 	eofWithData := tape.Draw(2) == 1
 	stick := []int{0, 1, 9}[tape.Draw(3)]
+	truncOn := tape.Draw(4) == 3
+	truncRaw := tape.Draw(1 << 30)
 
+	// truncated documents are inputs too (the stream ended early): the fault positions of a
+	// truncated document are a different set of error paths
+	trunc := -1
+	if truncOn && len(doc.Data) > 1 {
+		trunc = 1 + truncRaw%(len(doc.Data)-1)
+		doc.Data = doc.Data[:trunc]
+	}
 	mt, data := doc.MT, doc.Data
 	if embed == 1 {
 		if emt, edata, ok := embedDoc(doc); ok {
@@ -116,7 +125,7 @@ func c14Case(env *Env, tape *sim.Tape) *CaseOut {
 			embed = 0
 		}
 	}
-	ref := c14Reference(mt, data, fmt.Sprintf("%d/%d", di, embed))
+	ref := c14Reference(mt, data, fmt.Sprintf("%d/%d/%d", di, embed, trunc))
 	R := len(data)
 	kw, kr := -1, -1
 	if fk == fkWrite || fk == fkWriteShort || fk == fkBoth {
@@ -186,7 +195,10 @@ func c14Case(env *Env, tape *sim.Tape) *CaseOut {
 	if embed == 1 {
 		site += ":embedded(" + doc.MT + ")"
 	}
-	out.Key = HashOf(di, embed, entry, fk, kw, kr, useBytes, st.TraceHash)
+	out.Key = HashOf(di, embed, trunc, entry, fk, kw, kr, useBytes, st.TraceHash)
+	if trunc >= 0 {
+		out.stat("probe_truncated_document", 1)
+	}
 	out.Nontrivial = fired
 	out.stat("entry_"+entryNames[entry], 1)
 	if fired {
@@ -213,10 +225,10 @@ func c14Case(env *Env, tape *sim.Tape) *CaseOut {
 	}
 	out.Sample = map[string]any{"doc": doc.Name, "media_type": mt, "embedded": embed == 1, "entry": entryNames[entry], "fault": fkNames[fk],
 		"writer_fails_from_call": kw, "reader_fails_after_bytes": kr, "write_calls_fault_free": ref.W, "input_bytes": R,
-		"fired": fired, "input": corpus.Short(data, 80)}
+		"fired": fired, "truncated_at": trunc, "input": corpus.Short(data, 80)}
 
 	fail := func(kind, detail string) *CaseOut {
-		out.V = &sim.Violation{Kind: kind, Site: site, Detail: detail + fmt.Sprintf(" [doc=%s kw=%d kr=%d W=%d R=%d input=%q]", doc.Name, kw, kr, ref.W, R, corpus.Short(data, 120))}
+		out.V = &sim.Violation{Kind: kind, Site: site, Detail: detail + fmt.Sprintf(" [doc=%s truncated_at=%d kw=%d kr=%d W=%d R=%d input=%q]", doc.Name, trunc, kw, kr, ref.W, R, corpus.Short(data, 120))}
 		return out
 	}
 	if op.Panic != "" {
@@ -238,6 +250,10 @@ func c14Case(env *Env, tape *sim.Tape) *CaseOut {
 		return fail("goroutine-left-blocked", st.Leak)
 	}
 
+	if !fired && R == 0 && (entry == ERespWriter || entry == EMiddleErr) {
+		// an HTTP handler that writes no body never invokes a minifier: nothing to compare
+		return out
+	}
 	if !fired {
 		// strict oracle of the fault-free batch: same bytes and same error as the reference
 		if entry == EMiddleErr && op.MidErrSet {
@@ -301,8 +317,12 @@ func c14Search(s *Search) {
 	}
 	full, sampled := int64(0), int64(0)
 	idx := uint64(0)
-	run := func(vals ...uint64) *CaseOut {
+	// run builds the fixed tape prefix [doc, embed, entry, fault, kw, kr, useBytes, eof, stick,
+	// truncOn, truncPos] followed by the chunk/schedule draws in rest.
+	truncOn, truncPos := uint64(0), uint64(0)
+	run := func(di, embed, entry, fk, kw, kr, useBytes, eof, stick uint64, rest ...uint64) *CaseOut {
 		idx++
+		vals := append([]uint64{di, embed, entry, fk, kw, kr, useBytes, eof, stick, truncOn, truncPos}, rest...)
 		return s.Try(idx, sim.ReplayTape(vals))
 	}
 	entryIdx := func(e int) uint64 {
@@ -337,6 +357,28 @@ func c14Search(s *Search) {
 			// control: fault-free through every entry
 			for e := range c14Entries {
 				run(uint64(di), embed, uint64(e), fkNone, 0, 0, uint64(e%2), uint64(e/2%2), uint64(e%3), uint64(e%4))
+			}
+			// truncated variants of short documents: a spread of cut points (biased to just
+			// after markup characters), every writer position (strided) at each
+			if embed == 0 && len(doc.Data) > 1 && len(doc.Data) <= 512 {
+				cuts := truncationPoints(doc.Data, 6)
+				for _, c := range cuts {
+					truncOn, truncPos = 3, uint64(c-1)
+					tref := c14Reference(doc.MT, doc.Data[:c], fmt.Sprintf("%d/%d/%d", di, 0, c))
+					st := 1
+					if tref.W > 12 {
+						st = (tref.W + 11) / 12
+					}
+					for k := 0; k < tref.W; k += st {
+						run(uint64(di), 0, entryIdx(EPlain), fkWrite+uint64(k%2), uint64(k), 0, 0, 0, 0, uint64(k%3))
+					}
+					if tref.W > 0 {
+						run(uint64(di), 0, entryIdx(EPlain), fkWrite, uint64(tref.W-1), 0, 0, 0, 0, 0)
+						run(uint64(di), 0, entryIdx(EWriter), fkWrite, uint64(tref.W-1), 0, 0, 0, 1, 2, 1, 1)
+					}
+					run(uint64(di), 0, entryIdx(EPlain), fkRead, 0, uint64(c/2), 0, 0, 0, 1)
+				}
+				truncOn, truncPos = 0, 0
 			}
 			// every writer position, plain call, both variants
 			wstep := 1
@@ -424,4 +466,31 @@ func c14Search(s *Search) {
 
 func init() {
 	props["C14"] = &propDef{Search: c14Search, Case: c14Case, Stream: "C14"}
+}
+
+// truncationPoints picks up to n cut positions in (0,len): preferably just after markup
+// characters (inside tags, attribute values, strings, comments), else evenly spread.
+func truncationPoints(b []byte, n int) []int {
+	var pref []int
+	for i := 1; i < len(b); i++ {
+		switch b[i-1] {
+		case '<', '>', '"', '\'', '=', '{', '(', '[', ':', '/', '!', '-', '?':
+			pref = append(pref, i)
+		}
+	}
+	var out []int
+	seen := map[int]bool{}
+	add := func(p int) {
+		if p > 0 && p < len(b) && !seen[p] {
+			seen[p] = true
+			out = append(out, p)
+		}
+	}
+	for i := 0; i < n/2+1 && len(pref) > 0; i++ {
+		add(pref[(i*len(pref))/(n/2+1)])
+	}
+	for i := 1; len(out) < n && i <= n; i++ {
+		add(i * len(b) / (n + 1))
+	}
+	return out
 }
